@@ -71,7 +71,12 @@ def gen_case(rng):
                     g["activity"] = "sleep"  # same process as the master: would stop/kill the master itself
             has_via |= spec == "via"
         gws.append(g)
-    return {"gateways": gws, "action": "terminate", "timeout": rng.choice((0.1, 0.5, 1.0)), "has_via": has_via}
+    # some members are retired with gw.exit() before terminate() is called (only gateways nobody else depends on)
+    masters = {g.get("master") for g in gws}
+    pre_exit = [g["id"] for g in gws if g["id"] not in masters and g["spec"] != "socket" and rng.random() < 0.25]
+    if len(pre_exit) == len(gws):
+        pre_exit = pre_exit[:-1]
+    return {"gateways": gws, "action": "terminate", "timeout": rng.choice((0.1, 0.5, 1.0)), "has_via": has_via, "pre_exit": pre_exit}
 
 
 def bound_for(case):
